@@ -251,8 +251,8 @@ def func_from_sig(sig):
         The contents of the arguments are eventually passed to `exec`.
         Do not use with untrusted input.
     """
-    ret, sep, sig_str = str(sig).rpartition(' -> ')
-    ret = ret if sep else _util.UNSET
+    head, sep, tail = str(sig).rpartition(' -> ')
+    sig_str, ret = (head, tail) if sep else (tail, _util.UNSET)
     return f(sig_str[1:-1], ret)
 
 def make_up_callsigs(sig, extra=2):
